@@ -508,6 +508,9 @@ class Executor:
             self.seq_extend(cur, rhs, st)
             return
         val = self.binop(st.op, cur, rhs, st)
+        if isinstance(st.target, ast.Subscript) and isinstance(self.eval(st.target.slice, env) if not isinstance(st.target.slice, ast.Slice) else None, V.DiagIndex):
+            self.assign(st.target, val, env)
+            return
         if isinstance(cur, Seq) and cur.kind == "array" and isinstance(val, Seq):
             # numpy: `a op= b` works IN PLACE: the array object (and every alias / view holder of it) sees the new contents
             cur.items, cur.length, cur.arr = (list(val.items) if val.items is not None else None), val.length, val.arr
@@ -816,7 +819,17 @@ class Executor:
             base = self.eval(t.value, env)
             if isinstance(base, Seq):
                 idx = self.eval(t.slice, env)
-                self.seq_set(base, idx, val, t)
+                if isinstance(idx, V.DiagIndex) and base.concrete and all(isinstance(r_, Seq) and r_.concrete for r_ in base.items):
+                    # M[np.diag_indices_from(M)] = values: the diagonal entries are replaced
+                    vals = val.items if isinstance(val, Seq) and val.concrete else [val] * len(base.items)
+                    if len(vals) != len(base.items):
+                        raise OutOfSubset("diagonal store of another length", t)
+                    for k_, v_ in enumerate(vals):
+                        base.items[k_].items[k_] = v_
+                elif isinstance(idx, Seq) and idx.concrete and len(idx.items) == 2 and base.concrete and all(isinstance(r_, Seq) for r_ in base.items):
+                    self.seq_set(self.seq_get(base, idx.items[0], t), idx.items[1], val, t)      # M[i, j] = v on a small 2-D array (list of rows)
+                else:
+                    self.seq_set(base, idx, val, t)
             elif isinstance(base, DictV):
                 key = self.as_key(self.eval(t.slice, env), base.dom.sort().domain())
                 base.dom = z3.Store(base.dom, key, z3.BoolVal(True))
@@ -1286,6 +1299,12 @@ class Executor:
         if isinstance(e.slice, ast.Slice):
             return self.slice(base, e.slice, env, e)
         idx = self.eval(e.slice, env)
+        if isinstance(idx, V.DiagIndex) and isinstance(base, Seq) and base.concrete and all(isinstance(r_, Seq) and r_.concrete for r_ in base.items):
+            # M[np.diag_indices_from(M)]: a NEW array holding the diagonal entries (numpy fancy indexing copies)
+            return Seq("array", [base.items[k_].items[k_] for k_ in range(len(base.items))])
+        if isinstance(base, Seq) and isinstance(idx, Seq) and idx.concrete and len(idx.items) == 2 and base.concrete and all(isinstance(r_, Seq) for r_ in base.items):
+            # M[i, j] on a small 2-D array held as a list of rows
+            return self.seq_get(self.seq_get(base, idx.items[0], e), idx.items[1], e)
         if isinstance(base, Seq):
             return self.seq_get(base, idx, e)
         if isinstance(base, V.TupleSeq):
